@@ -66,7 +66,7 @@
 (*  M5 both detectors answer true for a multipart envelope and never panic.*)
 (* C - CertificateFetcher, for every identifier string and scripted answer:*)
 (*  C1 an identifier of hex digits is asked for with exactly one command   *)
-(*     "v1/certs/<id>\r\n" resp. "v1/ocsp/<id>\r\n" (ribbit.md endpoint    *)
+(*     line "v1/certs/<id>" resp. "v1/ocsp/<id>" (ribbit.md endpoint       *)
 (*     table; RibbitTactClient treats exactly these prefixes as TCP-only); *)
 (*     the map id -> command is injective and its two ranges are disjoint. *)
 (*  C2 any other identifier: no command, or one command of one line.       *)
@@ -74,8 +74,8 @@
 (*     MIME message) is returned with its subject, issuer, serial, SKI,    *)
 (*     key; an answer without a complete PEM block is an Err; never a panic*)
 (* R - request formatting, for every endpoint of the alphabet:             *)
-(*  R1 RibbitClient::query_raw(e) sends exactly e CRLF and returns the     *)
-(*     answer's bytes.                                                     *)
+(*  R1 RibbitClient::query_raw(e) sends exactly the line e (ended by CR LF  *)
+(*     or LF) and returns the answer's bytes.                              *)
 (*  R2 TactClient::query(e): one GET of TactPath(e); status table          *)
 (*     200+BPSV -> Ok, 200+other -> Parse, 429 -> RateLimited,             *)
 (*     503 -> ServiceUnavailable, other 5xx -> ServerError, else HttpStatus*)
@@ -250,17 +250,21 @@ HexDigits == {"0", "1", "2", "3", "4", "5", "6", "7", "8", "9", "a", "b", "c", "
 CharAt(s, i) == SubSeq(s, i, i)
 IsHexId(s) == Len(s) > 0 /\ \A i \in 1..Len(s) : CharAt(s, i) \in HexDigits
 CRLF == "\r\n"
+\* a command line as received by the server: the code ends it with CR LF, ribbit.md says "command + \n": both are the line
+IsLine(c, x) == c = x \o CRLF \/ c = x \o "\n"
 Prefix(via) == IF via = "ski" THEN "v1/certs/" ELSE "v1/ocsp/"
-CertCmd(via, id) == Prefix(via) \o id \o CRLF
+CertName(via, id) == Prefix(via) \o id
+CertCmd(via, id) == CertName(via, id) \o CRLF
 \*   FX07d: "certs/<id>" / "ocsp/<id>" (no "v1/"), and the identifier is pasted in whatever it contains
-AsIsCertCmd(via, id) == (IF via = "ski" THEN "certs/" ELSE "ocsp/") \o id \o CRLF
-OneLine(cmd) == /\ Len(cmd) >= 3 /\ SubSeq(cmd, Len(cmd) - 1, Len(cmd)) = CRLF
-                /\ \A i \in 1..(Len(cmd) - 2) : CharAt(cmd, i) \notin {"\r", "\n"}
+AsIsCertName(via, id) == (IF via = "ski" THEN "certs/" ELSE "ocsp/") \o id
+AsIsCertCmd(via, id) == AsIsCertName(via, id) \o CRLF
+OneLine(cmd) == /\ Len(cmd) >= 2 /\ CharAt(cmd, Len(cmd)) = "\n"
+                /\ \A i \in 1..(Len(cmd) - 1) : CharAt(cmd, i) \in {"\r", "\n"} => (i = Len(cmd) - 1 /\ CharAt(cmd, i) = "\r")
 Lines(cmd) == Cardinality({i \in 1..Len(cmd) : CharAt(cmd, i) = "\n"})
 
 PemCmdsOK(via, id, cmds, F) ==
-  \/ "FX07d" \in F /\ cmds = <<AsIsCertCmd(via, id)>>
-  \/ "FX07d" \notin F /\ IF IsHexId(id) THEN cmds = <<CertCmd(via, id)>>
+  \/ "FX07d" \in F /\ Len(cmds) = 1 /\ IsLine(cmds[1], AsIsCertName(via, id))
+  \/ "FX07d" \notin F /\ IF IsHexId(id) THEN Len(cmds) = 1 /\ IsLine(cmds[1], CertName(via, id))
                          ELSE cmds = <<>> \/ (Len(cmds) = 1 /\ OneLine(cmds[1]))
 
 \* the answers: which ones carry a complete PEM block of the certificate, which ones none
